@@ -1,7 +1,7 @@
 """C12 — moving an allocator transfers all its memory; the moved-from object is harmless (DESIGN.md #C12)"""
 import subjects
 
-SPEC = dict(modules=["MemVerif.Props.C12"], gen_cfgs=("rwdi",),
+SPEC = dict(modules=["MemVerif.Props.C12", "MemVerif.Props.C12Pool"], gen_cfgs=("rwdi",),
             assumptions=["sentinel re-linking of the intrusive lists is validated by the state dumps after every move (walks the real links), not proved",
                          "swap and move-assignment of pools are not exercised yet (iteration_allocator move-assignment is)"])
 
